@@ -206,6 +206,20 @@ def run_deductive(prop, tier, seed, report):
                 if len(samples) < 12:
                     samples.append({"obligation": name, "kind": "frame", "line": 0, "solver": "syntactic-rule",
                                     "clause": "no in-place mutation of this class-level container (directly, through a local alias or through an instance attribute assigned by reference)"})
+    if prop in ("C14", "C09"):
+        # a generator works with the registry it was given: the module-level default registry (which the command line edits) may be
+        # read in the inference code only as a parameter default / in a constructor
+        n_ob += 1
+        sites_ = default_registry_reads(eng.repo)
+        name = "default-registry-only-as-default@generator.py"
+        if sites_:
+            wo_open.append((name, sites_))
+        else:
+            n_dis += 1
+            by_solver["syntactic-rule"] = by_solver.get("syntactic-rule", 0) + 1
+            if len(samples) < 12:
+                samples.append({"obligation": name, "kind": "frame", "line": 0, "solver": "syntactic-rule",
+                                "clause": "json_to_models/generator.py reads the imported module-level `registry` only in parameter defaults and __init__ bodies"})
     report["_wo_open"] = wo_open
     report["deductive"].update({"obligations": n_ob, "discharged": n_dis, "by_solver": by_solver})
     report["samples"] = samples
@@ -219,6 +233,31 @@ def run_deductive(prop, tier, seed, report):
     report["_ledger"] = ledger
     report["_known"] = known
     return report
+
+
+def default_registry_reads(repo, module="json_to_models/generator.py", name="registry"):
+    """places in the inference module that read the module-level default string registry outside a parameter default / a constructor
+    body (a local variable or parameter of that name shadows it and is not counted)"""
+    import ast
+    out = []
+    for key, fi in sorted(repo.funcs.items()):
+        if not key.startswith(module + "::") or not isinstance(fi.node, (ast.FunctionDef, ast.AsyncFunctionDef)):
+            continue
+        if fi.node.name == "__init__":
+            continue
+        a = fi.node.args
+        shadow = {x.arg for x in a.args + a.kwonlyargs + a.posonlyargs} | ({a.vararg.arg} if a.vararg else set()) | ({a.kwarg.arg} if a.kwarg else set())
+        for st_ in fi.node.body:
+            for n in ast.walk(st_):
+                if isinstance(n, ast.Name) and isinstance(n.ctx, ast.Store) and n.id == name:
+                    shadow.add(name)
+        if name in shadow:
+            continue
+        for st_ in fi.node.body:
+            for n in ast.walk(st_):
+                if isinstance(n, ast.Name) and isinstance(n.ctx, ast.Load) and n.id == name:
+                    out.append(f"{key.split('::')[-1]} line {n.lineno}")
+    return sorted(set(out))
 
 
 def class_constant_mutations(repo):
